@@ -78,6 +78,42 @@ CHECKS.update({
          "DESIGN.md §4 C06"),
 })
 
+CHECKS.update({
+ "C08": ("exploration",
+         "deterministic simulation: funders create/merge/convert/claw back vesting accounts with seeded schedules; vesting accounts attempt every debit path of the op library (bank send, EVM value transfer, gov deposit, DAO fund, community-pool fund, liquidate, fees, delegate by message and by authz exec, convert-with-stake) while the clock jumps to schedule edges +-1 s, validators are slashed, the node restarts; independent event-list reference of the locked amount evaluated at block time after every successful tx",
+         "After every successful transaction (and every block) each vesting account's balance must be at least max(original - unlockedVested - trackedDelegated, unvested) computed by a reference that sums independent release events; after a delegation-type transaction the delegated amount must not exceed balance minus unvested.",
+         "trackedDelegated is read from the stored account (it is the account's own bookkeeping); IBC-transfer and precompile debit paths are not part of this profile at this commit; native denomination only.",
+         "DESIGN.md §4 C08"),
+ "C09": ("exploration",
+         "deterministic simulation over create/merge/convert/clawback/funder-update histories at seeded block times; after every vesting operation the stored account is compared with an independent event-list reference (union of grants, clawback = truncate + cap) at swept read times (every event instant -1/0/+1, block time, far future)",
+         "Pointwise equality of vested(t) and unlocked(t) between the stored account and the reference at every swept instant after all grants have started, monotonicity, vested+unvested = locked+unlocked = original, Validate(); clawback only by the recorded funder, destination receives exactly the reference unvested amount; convert-back only when nothing is locked or unvested.",
+         "Equality is established for schedules reached by simulated histories, not for all integers; the one instant the statement leaves open (zero-length period read exactly at its grant's start) is not compared.",
+         "DESIGN.md §4 C09"),
+ "C11": ("exploration",
+         "deterministic simulation: fully vested but locked accounts liquidate (to self/others) seeded amounts at block times inside/at/between periods; holders transfer, convert to/from ERC20, redeem partially and fully into fresh, plain and existing vesting accounts; clock jumps to period edges, duplicate/reordered ops, restart; per-period split identity, backing invariant and no-early-unlock inequality from pre/post state",
+         "Per liquidate: for every upcoming period left + moved = original, none negative, past periods untouched, moved total = amount, liquid schedule instants = account instants. After every tx and block: module native balance = sum of liquid supplies, every denom's periods sum to its supply. Per redeem: recipient receives exactly the amount and at every swept instant its locked-up amount grows by at least the share of the liquid token still locked then.",
+         "The proportional split rule is not prescribed by the statement, so the model re-synchronises from the stored schedule after verifying the identity.",
+         "DESIGN.md §4 C11"),
+})
+
+CHECKS.update({
+ "C02": ("exploration",
+         "deterministic simulation with hostile contracts as fault injectors: seeded FIC programs (call trees as data: nested calls, attached value at any edge, try/catch, REVERT/INVALID/out-of-gas by drawn stipends) hitting the staking and distribution precompiles with every (signer, caller, named account) relationship and dirty-set choice; total-supply conservation around every Ethereum tx on the real app",
+         "Around every Ethereum transaction (program through a frame-interpreter contract, or direct EOA->precompile call) the bank's total supply of the native coin and all actors' balances are read; supply must not change, and a transaction that failed must move no funds. Violations are classified by the smallest discriminating facts (failed frame containing a precompile call; balance moved for a non-caller while dirty in the EVM journal) so that the two known root causes do not mask others; three run regimes (no precompile calls / no failing frames / everything).",
+         "ICS-20 and the unreachable erc20/werc20 precompiles are not exercised at this commit (no IBC channel in this profile); per-account attribution relies on supply + actor balances, not on bank events.",
+         "DESIGN.md §4 C02"),
+ "C04": ("exploration",
+         "deterministic simulation: FIC programs and direct calls exercising staking/distribution precompile methods under every identity relation, with a seeded grant life cycle (approve / increase / decrease / revoke, limited and unlimited, several message types) and spends through contracts incl. re-entrancy and frame failures; non-interference + grant-gate + allowance-arithmetic oracle from pre/post state",
+         "For every account that is neither the signer nor the immediate caller of a committed state-changing precompile call: delegations, unbondings, redelegations, withdraw address and grants-as-granter unchanged and balance not decreased. A staking spend committed by a contract requires a grant from the signer to that contract in the pre-state covering type and amount; afterwards a limited grant is reduced by exactly the amounts used (deleted at zero, never exceeded); approve/increase/decrease/revoke set exactly the stated allowance.",
+         "Effects that survive a failed frame (finding C05-001) are attributed to C05 and skipped here; ICS-20 grants not exercised at this commit; expiry by clock jump not yet generated.",
+         "DESIGN.md §4 C04"),
+ "C05": ("exploration",
+         "deterministic simulation with frame-failure injection: for every sampled FIC program the block boundary is forked twice; fork A runs the program, fork B runs it with every frame that failed in A replaced by a stub that fails without doing anything; per-store commit hashes, logs and outcome compared (pruned-program fork differential)",
+         "No model of what any message does is needed: if a failed frame leaves no trace, running the program and running it with the failed frames hollowed out must commit identical stores (all but the fee market's block-gas figure) and emit the same number of logs. Fees are zero in this profile so gas cannot leak into state. Failure kinds: REVERT, INVALID, out of gas via drawn stipends (incl. inside the precompile's gas meter), STATICCALL write protection, failing precompile calls, failure in siblings and in parents caught one level higher.",
+         "The hand-assembled interpreter contract is unit-tested against go-ethereum's runtime (sim/evmprog/fic_test.go); which calls ran inside a frame that died without return data is classified statically from the program.",
+         "DESIGN.md §4 C05"),
+})
+
 NOT_YET = {}  # id -> reason (filled below)
 NA = {
  "C18": "pure function of one input (wrap -> encode -> decode -> unwrap of one Ethereum tx): no schedule, clock, fault, crash or second party can change its result, so deterministic simulation with fault injection has nothing to decide; see DESIGN.md §4 C18",
